@@ -8,16 +8,15 @@ Definition own_pc (p : pc) : option acct :=
 Definition after_reg (p : pc) : option acct :=
   match p with StoreKey a | Rollback a => Some a | _ => None end.
 Definition del_of (p : pc) : option macct :=
-  match p with DelReg m | DelKey m => Some m | _ => None end.
+  match p with DWantLock m | DLoadReg m | DLoadKey m _ | DelReg m | DelKey m => Some m | _ => None end.
 
 (** an account that is being saved is not yet in the key file *)
 Definition FR (s : state) : Prop :=
   forall t a, own_pc (pcof s t) = Some a -> s_key (slots s (caof s t)) <> Some a.
-(** after its Store, the reg file holds the saver's account unless somebody deleted it *)
+(** after its Store, the reg file holds the saver's account (every writer holds the lock) *)
 Definition RR (s : state) : Prop :=
-  forall t a, after_reg (pcof s t) = Some a ->
-    s_reg (slots s (caof s t)) = Some a \/ s_reg (slots s (caof s t)) = None.
-(** deleteAccountLocally runs only for an account the CA of the directory in use has forgotten *)
+  forall t a, after_reg (pcof s t) = Some a -> s_reg (slots s (caof s t)) = Some a.
+(** deleteAccountLocallyIfCurrent runs only for an account the CA of the directory in use has forgotten *)
 Definition G (s : state) : Prop :=
   forall t m, del_of (pcof s t) = Some m -> m_loc m <= forgotten s (caof s t).
 
@@ -36,17 +35,15 @@ Proof.
     destruct (s_key (slots s (caof s t))); [|discriminate]. intros Y. injection Y as Y. lia.
   - injection Ht0 as <-. apply (HF t a). rewrite Heqp. reflexivity.
   - injection Ht0 as <-. apply (HF t a). rewrite Heqp. reflexivity.
-  - rewrite <- E. apply HF0. assumption.
 Qed.
 
 Lemma RR_step s l s' : I_lock s -> RR s -> step s l = Some s' -> RR s'.
 Proof.
   intros HI HR H. step_cases H; pc_tests; intros t0 a0 Ht0; pose proof (HR t0 a0) as HR0;
     cbn in *; crash_norm; cbn in *; upd_all; cbn in *; bool_cases; res_cases; cbn in *;
-    try discriminate; try (apply HR0; assumption); try congruence; try (left; congruence); try (right; reflexivity).
+    try discriminate; try (apply HR0; assumption); try congruence.
   all: try (match goal with H : after_reg _ = Some _ |- _ => pose proof (after_holds _ _ H) end; lock_facts HI; congruence).
   - injection Ht0 as <-. apply (HR t a). rewrite Heqp. reflexivity.
-  - rewrite <- E. apply HR0. assumption.
 Qed.
 
 Lemma G_step s l s' : WF s -> G s -> step s l = Some s' -> G s'.
@@ -54,24 +51,185 @@ Proof.
   intros [HS HT] HG H. step_cases H; pc_tests; intros t0 m0 Ht0; pose proof (HG t0 m0) as HG0;
     cbn in *; crash_norm; cbn in *; upd_all; cbn in *; bool_cases; res_cases; cbn in *;
     try discriminate; try (apply HG0; assumption); try congruence.
+  all: try (injection Ht0 as <-; apply (HG t m); rewrite Heqp; reflexivity).
   - injection Ht0 as <-. apply live_false in Heqb0. pose proof (HT t) as X. rewrite Heqp in X.
     destruct X as [[X1 X2] _]. lia.
-  - injection Ht0 as <-. apply (HG t m). rewrite Heqp. reflexivity.
-  - pose proof (HT t0) as X. destruct (pcof s t0); cbn in Ht0; try discriminate;
-      injection Ht0 as <-; destruct X as [[X1 X2] _]; lia.
+  - (* Reset: everything created so far is forgotten *)
+    pose proof (HT t0) as X. destruct (pcof s t0); cbn in Ht0; try discriminate;
+      injection Ht0 as <-; cbn in X; unfold ok_m, ok in X; lia.
 Qed.
 
-Record Inv2 (s : state) : Prop := { inv2_fr : FR s; inv2_rr : RR s; inv2_g : G s }.
+
+(** what deleteAccountLocallyIfCurrent has read under the lock is still what is stored: every
+    writer holds the lock *)
+Definition DD (s : state) : Prop :=
+  forall t,
+    (forall m r, pcof s t = DLoadKey m r -> s_reg (slots s (caof s t)) = Some r) /\
+    (forall m, pcof s t = DelReg m ->
+       s_reg (slots s (caof s t)) = Some (m_loc m) /\ has_key (slots s (caof s t)) = true) /\
+    (forall m, pcof s t = DelKey m -> s_reg (slots s (caof s t)) = None).
+
+Definition dd_pc (p : pc) : bool :=
+  match p with DLoadKey _ _ | DelReg _ | DelKey _ => true | _ => false end.
+Lemma dd_holds p : dd_pc p = true -> holds_lock_pc p = true.
+Proof. destruct p; cbn; congruence. Qed.
+
+Lemma DD_step s l s' : I_lock s -> DD s -> step s l = Some s' -> DD s'.
+Proof.
+  intros HI HD H. step_cases H; pc_tests; intros t0; pose proof (HD t0) as (D1 & D2 & D3);
+    cbn in *; crash_norm; cbn in *; upd_all; cbn in *; bool_cases; res_cases; cbn in *;
+    (split; [intros m0 r0 HE|split; [intros m0 HE|intros m0 HE]]);
+    try discriminate; try (injection HE as HE; subst); cbn in *;
+    try (eapply D1; eassumption); try (eapply D2; eassumption); try (eapply D3; eassumption);
+    try congruence.
+  all: try (exfalso; assert (X : dd_pc (pcof s t0) = true) by (rewrite HE; reflexivity);
+            apply dd_holds in X; lock_facts HI; congruence).
+  - apply Nat.eqb_eq in Heqb0. subst. split; [eapply D1; exact Heqp|].
+    unfold has_key. rewrite Heqo. reflexivity.
+Qed.
+
+(* ------------------------------------------------------------------ registrations and re-installations *)
+
+(** the account that is completely stored or on its way to storage *)
+Definition acc (s : state) (c : ca) : option acct :=
+  let dflt := if full (slots s c) then s_reg (slots s c) else None in
+  match lock s with
+  | Some t =>
+      if Nat.eqb (caof s t) c then
+        match pcof s t with
+        | StoreReg a => Some a
+        | StoreKey _ => s_reg (slots s c)
+        | Rollback _ => None
+        | _ => dflt
+        end
+      else dflt
+  | None => dflt
+  end.
+Definition ind2 (s : state) (c : ca) : nat := match acc s c with Some _ => 1 | None => 0 end.
+(** ... and the CA has forgotten it: a re-installation that has not yet been paid for by a new registration *)
+Definition stale (s : state) (c : ca) : nat :=
+  match acc s c with Some a => b2n (a <=? forgotten s c) | None => 0 end.
+
+Definition ACC2 (s : state) : Prop :=
+  forall c, created s c + stale s c <= fsaves s c + crashes s c + resets s c + ind2 s c.
+
+Lemma stale_le1 s c : stale s c <= ind2 s c.
+Proof. unfold stale, ind2, b2n. destruct (acc s c); [destruct (_ <=? _)|]; lia. Qed.
+Lemma ind2_le1 s c : ind2 s c <= 1.
+Proof. unfold ind2. destruct (acc s c); lia. Qed.
+
+Ltac leb_all :=
+  repeat match goal with
+         | |- context [?a <=? ?b] => destruct (Nat.leb_spec a b)
+         | H : context [?a <=? ?b] |- _ => destruct (Nat.leb_spec a b)
+         end.
+
+(** the CA forgets only accounts it has created *)
+Definition FC (s : state) : Prop := forall c, forgotten s c <= created s c.
+Lemma FC_step s l s' : FC s -> step s l = Some s' -> FC s'.
+Proof.
+  intros HF H. step_cases H; intros c0; pose proof (HF c0); cbn; crash_norm; cbn; upd_all; lia.
+Qed.
+
+Local Opaque Nat.leb.
+
+Lemma ACC2_step s l s' :
+  I_lock s -> J s -> FC s -> G s -> DD s -> ACC2 s -> step s l = Some s' -> ACC2 s'.
+Proof.
+  intros HI HJ HFC HG HD HA H. destruct l as [t c|t f|t|c].
+  - (* Start *)
+    step_cases H; pc_tests; intros c0; pose proof (HA c0) as HA0; unfold stale, ind2, acc in *; cbn in *.
+    destruct (lock s) as [h|] eqn:HLK; cbn in *; [|exact HA0].
+    upd_all; cbn in *; rw_pcs; cbn in *;
+      repeat match goal with |- context [if Nat.eqb ?a ?b then _ else _] => destruct (Nat.eqb a b) end;
+      repeat match goal with H : context [if Nat.eqb ?a ?b then _ else _] |- _ => destruct (Nat.eqb a b) end; exact HA0.
+  - (* Op *)
+    step_cases H; intros c0; pose proof (HA c0) as HA0;
+      pose proof (stale_le1 s c0) as Hle; pose proof (ind2_le1 s c0) as Hle1;
+      unfold stale, ind2, acc in *; cbn in *.
+    all: destruct (lock s) as [h|] eqn:HLK; cbn in *; lock_facts HI; cbn in *; upd_all; cbn in *;
+         try congruence; rw_pcs; cbn in *; bool_cases; res_cases; cbn in *; try lia.
+    all: eqb_all; cbn in *; try congruence; rw_pcs; cbn in *; try lia.
+    + (* Register: nothing complete before (J), a live account afterwards *)
+      pose proof (HJ t) as X. rewrite Heqp in X. rewrite (X eq_refl) in *. cbn in *.
+      pose proof (HFC (caof s t)). unfold b2n. leb_all; lia.
+    + (* the Store of the reg file fails *)
+      pose proof (HJ t) as X. rewrite Heqp in X. rewrite (X eq_refl) in *. cbn in *.
+      unfold b2n in *. leb_all; lia.
+    + (* the Store of the key file succeeds *)
+      unfold full in *. cbn in *. destruct (s_reg (slots s (caof s t))); exact HA0.
+    + (* the rollback fails *)
+      unfold b2n in *. destruct (full _); [destruct (s_reg _)|]; leb_all; lia.
+    + (* deleteAccountLocally, reg file: the stored account is the one the CA has forgotten *)
+      destruct (HD t) as (_ & D2 & _). destruct (D2 m Heqp) as [Dr Dk].
+      pose proof (HG t m) as X. rewrite Heqp in X. specialize (X eq_refl).
+      unfold full, has_key in *. rewrite Dr in *. destruct (s_key (slots s (caof s t))); [|discriminate].
+      cbn in *. unfold b2n in *. leb_all; lia.
+    + (* deleteAccountLocally, key file *)
+      destruct (HD t) as (_ & _ & D3). unfold full in *. cbn in *. rewrite (D3 m Heqp) in *. cbn in *. lia.
+  - (* Crash *)
+    unfold step in H. destruct (finished (pcof s t)) eqn:Hf; [discriminate|]. injection H as <-.
+    intros c0. pose proof (HA c0) as HA0. pose proof (stale_le1 s c0) as Hle. pose proof (ind2_le1 s c0) as Hle1.
+    unfold stale, ind2, acc in *. cbn. crash_norm. cbn.
+    assert (Hcr : crashes s c0 <=
+                  (if in_save_window (pcof s t) && Nat.eqb c0 (caof s t) then S (crashes s c0) else crashes s c0))
+      by (destruct (_ && _); lia).
+    destruct (lock s) as [h|] eqn:HLK.
+    + destruct (Nat.eqb_spec h t) as [->|Hne]; cbn.
+      * destruct (Nat.eqb_spec (caof s t) c0) as [E|Hc]; [subst c0|lia].
+        rewrite Nat.eqb_refl, Bool.andb_true_r in *.
+        pose proof (HJ t) as XJ.
+        destruct (pcof s t) eqn:Hpc; cbn in *; try (rewrite (XJ eq_refl) in *); unfold full, b2n in *; cbn in *;
+          repeat match goal with |- context [match ?x with Some _ => _ | None => _ end] => destruct x eqn:? end;
+          cbn in *; leb_all; try discriminate; lia.
+      * rewrite (upd_neq _ _ _ _ Hne). lia.
+    + lia.
+  - (* Reset *)
+    step_cases H. intros c0. pose proof (HA c0) as HA0. pose proof (stale_le1 s c0) as Hle.
+    pose proof (ind2_le1 s c0) as Hle1. unfold stale, ind2, acc in *. cbn in *.
+    unfold upd. destruct (Nat.eqb_spec c0 c) as [->|Hne]; [|exact HA0].
+    destruct (lock s) as [h|]; [destruct (Nat.eqb (caof s h) c); [destruct (pcof s h)|]|];
+      repeat match goal with |- context [match ?x with Some _ => _ | None => _ end] => destruct x eqn:? end;
+      unfold b2n in *; leb_all; lia.
+Qed.
+Local Transparent Nat.leb.
+
+Record Inv2 (s : state) : Prop := {
+  inv2_fr : FR s; inv2_rr : RR s; inv2_g : G s; inv2_dd : DD s; inv2_fc : FC s; inv2_acc : ACC2 s
+}.
+
+Lemma Inv2_init : Inv2 init.
+Proof.
+  split.
+  - intros t x H; cbn in H; discriminate.
+  - intros t x H; cbn in H; discriminate.
+  - intros t x H; cbn in H; discriminate.
+  - intros t. cbn. repeat split; intros; discriminate.
+  - intros c. cbn. lia.
+  - intros c. cbn. lia.
+Qed.
 
 Lemma Inv2_reachable s : reachable s -> Inv2 s.
 Proof.
   intros Hr. cut (Inv s /\ Inv2 s); [tauto|]. revert s Hr. apply reachable_ind.
-  - split; [exact Inv_init|]. split; intros t x H; cbn in H; discriminate.
-  - intros s l s1 _ [HI [H1 H2 H3]] Hs. split; [eapply Inv_step; eassumption|].
-    destruct HI as [L _ _ W _ _]. split.
+  - split; [exact Inv_init|exact Inv2_init].
+  - intros s l s1 _ [HI [H1 H2 H3 H4 H5 H6]] Hs. split; [eapply Inv_step; eassumption|].
+    destruct HI as [L J0 _ W _ _]. split.
     + eapply FR_step; eassumption.
     + eapply RR_step; eassumption.
     + eapply G_step; eassumption.
+    + eapply DD_step; eassumption.
+    + eapply FC_step; eassumption.
+    + eapply ACC2_step; eassumption.
+Qed.
+
+(** however many instances, threads, restarts, faults, crashes: every registration beyond the
+    first is paid for by a failed save, a crash between registering and saving, or a
+    re-installation of the CA — the recreate path by itself never costs a registration *)
+Theorem registrations_bounded_by_reinstallations s c :
+  reachable s -> created s c <= 1 + fsaves s c + crashes s c + resets s c.
+Proof.
+  intros H. apply Inv2_reachable in H. pose proof (inv2_acc _ H c). pose proof (ind2_le1 s c). lia.
 Qed.
 
 (* ------------------------------------------------------------------ what changes a stored account *)
@@ -91,18 +249,18 @@ Proof.
     step_cases H; cbn; crash_norm; reflexivity.
 Qed.
 
-(** F: a completely stored account (reg and key of the same account [a]) is modified only by
-    deleteAccountLocally, run by a thread whose own CA (the directory in use) answered
-    accountDoesNotExist for the account [m] the thread held, which that CA has indeed forgotten *)
+(** F, for every schedule: a completely stored account (reg and key of the same account [a]) is
+    modified only by deleteAccountLocally, run under the registration lock by a thread whose own
+    CA (the directory in use) answered accountDoesNotExist for exactly this account [a], which
+    that CA has indeed forgotten *)
 Theorem replaced_only_if_ca_says_gone s l s1 c a :
   reachable s -> step s l = Some s1 ->
   slots s c = Slot (Some a) (Some a) -> slots s1 c <> slots s c ->
-  exists t m, l = Op t false /\ caof s t = c /\
-              (pcof s t = DelReg m \/ pcof s t = DelKey m) /\
-              m_loc m <= forgotten s c /\ live s c (m_loc m) = false.
+  exists t m, l = Op t false /\ caof s t = c /\ pcof s t = DelReg m /\ lock s = Some t /\
+              m_loc m = a /\ a <= forgotten s c /\ live s c a = false.
 Proof.
   intros Hr Hs Hsl Hch.
-  pose proof (Inv_reachable _ Hr) as [HL HJ _ _ _ _]. pose proof (Inv2_reachable _ Hr) as [HF HR HG].
+  pose proof (Inv_reachable _ Hr) as [HL HJ _ _ _ _]. pose proof (Inv2_reachable _ Hr) as [HF HR HG HD _ _].
   destruct l as [t c1|t f|t|c1];
     try (exfalso; apply Hch; eapply other_labels_touch_no_account; [eassumption|intros; discriminate]).
   destruct (Nat.eq_dec c (caof s t)) as [->|Hne];
@@ -114,15 +272,20 @@ Proof.
   - (* Store of the key file: the reg file would be the saver's, the key file not yet *)
     exfalso. pose proof (HR t a0) as X. rewrite Heqp in X. specialize (X eq_refl).
     pose proof (HF t a0) as Y. rewrite Heqp in Y. specialize (Y eq_refl).
-    rewrite Hsl in *. cbn in *. destruct X as [X|X]; congruence.
+    rewrite Hsl in *. cbn in *. congruence.
   - (* rollback: same *)
     exfalso. pose proof (HR t a0) as X. rewrite Heqp in X. specialize (X eq_refl).
     pose proof (HF t a0) as Y. rewrite Heqp in Y. specialize (Y eq_refl).
-    rewrite Hsl in *. cbn in *. destruct X as [X|X]; congruence.
-  - exists t, m. pose proof (HG t m) as X. rewrite Heqp in X. specialize (X eq_refl).
-    repeat split; auto. unfold live. apply Bool.andb_false_iff. left. apply Nat.ltb_ge. exact X.
-  - exists t, m. pose proof (HG t m) as X. rewrite Heqp in X. specialize (X eq_refl).
-    repeat split; auto. unfold live. apply Bool.andb_false_iff. left. apply Nat.ltb_ge. exact X.
+    rewrite Hsl in *. cbn in *. congruence.
+  - (* Delete of the reg file *)
+    exists t, m. pose proof (HG t m) as X. rewrite Heqp in X. specialize (X eq_refl).
+    destruct (HD t) as (_ & D2 & _). destruct (D2 m Heqp) as [Dr _]. rewrite Hsl in Dr. cbn in Dr.
+    injection Dr as Dr. rewrite <- Dr in *.
+    repeat split; auto.
+    + apply HL. rewrite Heqp. reflexivity.
+    + unfold live. apply Bool.andb_false_iff. left. apply Nat.ltb_ge. exact X.
+  - (* Delete of the key file: the reg file is gone already *)
+    exfalso. destruct (HD t) as (_ & _ & D3). pose proof (D3 m Heqp) as X. rewrite Hsl in X. discriminate X.
 Qed.
 
 (* ------------------------------------------------------------------ an existing account is reused *)
@@ -132,7 +295,8 @@ Definition okpc (a : acct) (p : pc) : Prop :=
   | Idle | Done None | LoadReg _ | WantLock | Unlock None => True
   | LoadKey _ r => r = a
   | Unlock (Some m) | Order m _ | Done (Some m) => m = MA a a
-  | Register | StoreReg _ | StoreKey _ | Rollback _ | DelReg _ | DelKey _ => False
+  | Register | StoreReg _ | StoreKey _ | Rollback _ => False
+  | DWantLock _ | DLoadReg _ | DLoadKey _ _ | DelReg _ | DelKey _ | DUnlock _ => False
   end.
 
 (** account [a] of CA [c] is completely stored, the CA knows it, and no thread of that CA is in
@@ -190,89 +354,8 @@ Proof.
   intros t m Hc Hp. destruct X1 as (_ & _ & X3). pose proof (X3 t Hc) as Y. rewrite Hp in Y. exact Y.
 Qed.
 
-(* ------------------------------------------------------------------ one issuance at a time *)
 
-(** sequential schedules: a thread takes steps only while every other thread is idle or
-    finished (any number of issuances one after the other, in any instances, with faults,
-    crashes and CA re-installations at any moment) *)
-Definition quiet (s : state) (t : tid) : Prop :=
-  forall t', t' <> t -> finished (pcof s t') = true.
-Definition seq_ok (s : state) (l : label) : Prop :=
-  match label_tid l with Some t => quiet s t | None => True end.
-Inductive seq_reachable : state -> Prop :=
-| seq_init : seq_reachable init
-| seq_next s l s1 : seq_reachable s -> seq_ok s l -> step s l = Some s1 -> seq_reachable s1.
-
-Lemma seq_reachable_reachable s : seq_reachable s -> reachable s.
-Proof.
-  induction 1 as [|s l s1 _ IH _ Hs]; [exists []; reflexivity|]. eapply reachable_step; eassumption.
-Qed.
-
-Definition carries (p : pc) : option macct :=
-  match p with Unlock (Some m) | Order m _ | DelReg m => Some m | _ => None end.
-
-Definition SQ (s : state) : Prop :=
-  forall t,
-    (forall lk r, pcof s t = LoadKey lk r -> s_reg (slots s (caof s t)) = Some r) /\
-    (forall a, pcof s t = StoreKey a -> s_reg (slots s (caof s t)) = Some a) /\
-    (forall m, carries (pcof s t) = Some m -> slots s (caof s t) = Slot (Some (m_loc m)) (Some (m_key m))) /\
-    (forall m, pcof s t = DelKey m -> s_reg (slots s (caof s t)) = None).
-
-Lemma thr_frame s l s1 t t0 :
-  step s l = Some s1 -> label_tid l = Some t -> t0 <> t -> thr s1 t0 = thr s t0.
-Proof.
-  intros H Hl Hne. destruct l as [t' c1|t' f|t'|c1]; cbn in Hl; try discriminate; injection Hl as ->;
-    step_cases H; cbn; crash_norm; cbn; rewrite ?(upd_neq' t t0 Hne); reflexivity.
-Qed.
-
-Lemma SQ_step s l s1 : SQ s -> seq_ok s l -> step s l = Some s1 -> SQ s1.
-Proof.
-  intros HS Hq H.
-  destruct (label_tid l) as [t|] eqn:Hl.
-  2: { destruct l; cbn in Hl; try discriminate. step_cases H. exact HS. }
-  unfold seq_ok in Hq. rewrite Hl in Hq.
-  intros t0. destruct (Nat.eq_dec t0 t) as [->|Hne].
-  2: { rewrite (thr_frame _ _ _ _ _ H Hl Hne). pose proof (Hq t0 Hne) as Hfin.
-       destruct (pcof s t0); cbn in Hfin; try discriminate; repeat split; intros; discriminate. }
-  pose proof (HS t) as (S1 & S2 & S3 & S4).
-  destruct l as [t' c1|t' f|t'|c1]; cbn in Hl; try discriminate; injection Hl as ->.
-  all: step_cases H; pc_tests; cbn in *; crash_norm; cbn in *; rewrite ?upd_eq; cbn;
-    bool_cases; res_cases; cbn in *;
-    (split; [intros lk0 r0 E0|split; [intros a0 E0|split; [intros m0 E0|intros m0 E0]]]);
-    try discriminate; try (injection E0 as E0; subst); cbn in *; try congruence.
-  - pose proof (S1 _ _ eq_refl) as X. destruct (slots s (caof s t)) as [rg ky]. cbn in *. congruence.
-  - pose proof (S1 _ _ eq_refl) as X. destruct (slots s (caof s t)) as [rg ky]. cbn in *. congruence.
-  - rewrite (S2 _ eq_refl). reflexivity.
-  - apply S3. reflexivity.
-  - apply S3. reflexivity.
-Qed.
-
-Lemma SQ_reachable s : seq_reachable s -> SQ s.
-Proof.
-  induction 1 as [|s l s1 _ IH Hq Hs].
-  - intros t. cbn. repeat split; intros; discriminate.
-  - eapply SQ_step; eassumption.
-Qed.
-
-(** F (sequential): with one issuance at a time — which is all a single doIssue, however often
-    retried or restarted, amounts to — the stored account is replaced only when the CA of the
-    directory in use reports that this very account no longer exists *)
-Theorem replaced_only_if_ca_says_gone_sequential s l s1 c a :
-  seq_reachable s -> seq_ok s l -> step s l = Some s1 ->
-  slots s c = Slot (Some a) (Some a) -> slots s1 c <> slots s c ->
-  exists t, l = Op t false /\ caof s t = c /\ pcof s t = DelReg (MA a a) /\ live s c a = false.
-Proof.
-  intros Hr Hq Hs Hsl Hch.
-  destruct (replaced_only_if_ca_says_gone s l s1 c a (seq_reachable_reachable _ Hr) Hs Hsl Hch)
-    as (t & m & -> & Hc & Hp & _ & Hlv).
-  pose proof (SQ_reachable _ Hr t) as (_ & _ & S3 & S4). exists t. subst c.
-  destruct Hp as [Hp|Hp].
-  - pose proof (S3 m) as X. rewrite Hp in X. specialize (X eq_refl). rewrite Hsl in X.
-    injection X as X1 X2. destruct m as [lo ky]. cbn in *. subst. repeat split; auto.
-  - pose proof (S4 m Hp) as X. rewrite Hsl in X. discriminate X.
-Qed.
-
-(* ------------------------------------------------------------------ R: concurrent issuances *)
+(* ------------------------------------------------------------------ concurrent issuances *)
 
 Definition opt_eqb (a b : option nat) : bool :=
   match a, b with Some x, Some y => Nat.eqb x y | None, None => true | _, _ => false end.
@@ -291,47 +374,27 @@ Proof.
   - intros H. injection H as -> ->. split; reflexivity.
 Qed.
 
+
 Definition ops (t : tid) (n : nat) : list label := repeat (Op t false) n.
 
-(** thread 0 registers account 1 and issues; threads 1 and 2 load account 1; the CA is
-    re-installed; thread 1 is told accountDoesNotExist, deletes, registers account 2, saves it;
-    thread 2 (still holding account 1) is told accountDoesNotExist and is about to delete *)
+(** the schedule that used to delete a live account (the former known finding): thread 0
+    registers account 1 and issues; threads 1 and 2 load account 1; the CA is re-installed;
+    thread 1 is told accountDoesNotExist, deletes account 1 under the lock, registers account 2,
+    saves it and issues; thread 2 (still holding account 1) is told accountDoesNotExist, takes
+    the lock, finds account 2 in storage — not the one it was refused with — deletes nothing,
+    loads account 2 and issues with it. Two accounts, not three. *)
 Definition witness_concurrent : list label :=
-  Start 0 0 :: ops 0 8 ++ Start 1 0 :: ops 1 2 ++ Start 2 0 :: ops 2 2 ++ Reset 0 :: ops 1 10 ++ ops 2 1.
+  Start 0 0 :: ops 0 8 ++ Start 1 0 :: ops 1 2 ++ Start 2 0 :: ops 2 2 ++ Reset 0 :: ops 1 15 ++ ops 2 8.
 
-Lemma witness_concurrent_ok :
+Example witness_concurrent_ok :
   match run init witness_concurrent with
   | Some s =>
-      slot_eqb (slots s 0) (Slot (Some 2) (Some 2)) && live s 0 2 &&
-      match step s (Op 2 false) with
-      | Some s1 => slot_eqb (slots s1 0) (Slot None (Some 2)) &&
-                   match run s1 (ops 2 9) with
-                   | Some s2 => Nat.eqb (created s2 0) 3 && slot_eqb (slots s2 0) (Slot (Some 3) (Some 3))
-                   | None => false
-                   end
-      | None => false
+      slot_eqb (slots s 0) (Slot (Some 2) (Some 2)) && live s 0 2 && Nat.eqb (created s 0) 2 &&
+      Nat.eqb (deletes s 0) 2 &&
+      match pcof s 1, pcof s 2 with
+      | Done (Some m1), Done (Some m2) => Nat.eqb (m_loc m1) 2 && Nat.eqb (m_loc m2) 2
+      | _, _ => false
       end
   | None => false
   end = true.
 Proof. vm_compute. reflexivity. Qed.
-
-(** R: with two issuances in flight the strong statement fails — a completely stored account
-    that the CA knows is deleted (and then replaced by a third registration), although the CA
-    only ever reported the *previous* account as missing *)
-Theorem replaced_only_if_ca_says_gone_concurrent_refuted :
-  exists s l s1 c a,
-    reachable s /\ step s l = Some s1 /\
-    slots s c = Slot (Some a) (Some a) /\ live s c a = true /\ slots s1 c <> slots s c.
-Proof.
-  pose proof witness_concurrent_ok as H.
-  destruct (run init witness_concurrent) as [s|] eqn:E; [|discriminate].
-  destruct (step s (Op 2 false)) as [s1|] eqn:E1;
-    [|rewrite Bool.andb_false_r in H; discriminate].
-  apply Bool.andb_true_iff in H. destruct H as [H H1].
-  apply Bool.andb_true_iff in H. destruct H as [H0 Hl].
-  apply Bool.andb_true_iff in H1. destruct H1 as [H1 _].
-  apply slot_eqb_eq in H0, H1.
-  exists s, (Op 2 false), s1, 0, 2. repeat split; auto.
-  - exists witness_concurrent. exact E.
-  - rewrite H0, H1. discriminate.
-Qed.
